@@ -18,6 +18,8 @@ Kernels
        nothing extra, document order, numbers 1..n, content type, pixel size, unit attribution, unit
        views == document iterators
   K3v  unit views vs document iterators on content instances (pdf, pptx, xlsx, odp, ods)
+  K5   generated PDFs: JPEG image XObjects announced by every form of /Filter (name, one-element array,
+       transport filters in front of DCTDecode) through read_pdf
   K4   shared media x access order: generated pptx/docx/xlsx/epub/odp packages in which every anchor
        chooses the media part it shows (a new one or any part shown earlier: one relationship reused,
        several relationships with one Target, the same part on several units), read by a consumer whose
@@ -779,7 +781,7 @@ def _rid_for(rid_of, one_rel, m, k):
     return rid_of[m], True
 
 
-def write_pptx(units, reverse_rels=False, one_rel=False):
+def write_pptx(units, reverse_rels=False, one_rel=False, omit_empty_rels=False):
     P = "http://schemas.openxmlformats.org/presentationml/2006/main"
     mem = [("[Content_Types].xml", content_types(
         [("/ppt/presentation.xml", "application/vnd.openxmlformats-officedocument.presentationml.presentation.main+xml")] +
@@ -798,7 +800,7 @@ def write_pptx(units, reverse_rels=False, one_rel=False):
             n += 1
             m = im.get("media", n)          # media number: anchors of the shared-media kernel name theirs
             rid, new = _rid_for(rid_of, one_rel, m, k)
-            if new:
+            if new and not im.get("dangling"):      # dangling: the anchor names an id its part has no relationship for
                 rl.append((rid, R + "/image", "../media/image%d.%s" % (m, im["ext"])))
             pics.append('<p:pic><p:nvPicPr><p:cNvPr id="%d" name="Picture %d"/><p:cNvPicPr/><p:nvPr/></p:nvPicPr>'
                         '<p:blipFill><a:blip r:embed="%s"/></p:blipFill><p:spPr><a:xfrm><a:off x="0" y="%d"/>'
@@ -809,10 +811,11 @@ def write_pptx(units, reverse_rels=False, one_rel=False):
                     '<?xml version="1.0" encoding="UTF-8"?><p:sld xmlns:p="%s" xmlns:a="%s" xmlns:r="%s"><p:cSld><p:spTree>'
                     '<p:nvGrpSpPr><p:cNvPr id="1" name=""/><p:cNvGrpSpPr/><p:nvPr/></p:nvGrpSpPr><p:grpSpPr/>%s</p:spTree></p:cSld></p:sld>' % (
                         P, A, R, "".join(pics) + _PPTX_TABLE % (si + 1))))
-        mem.append(("ppt/slides/_rels/slide%d.xml.rels" % (si + 1), rels_xml(rl[::-1] if reverse_rels else rl)))
+        if rl or not omit_empty_rels:
+            mem.append(("ppt/slides/_rels/slide%d.xml.rels" % (si + 1), rels_xml(rl[::-1] if reverse_rels else rl)))
     return _zip(mem)
 
-def write_docx(units, reverse_rels=False, one_rel=False):
+def write_docx(units, reverse_rels=False, one_rel=False, omit_empty_rels=False):
     W = "http://schemas.openxmlformats.org/wordprocessingml/2006/main"
     imgs = units[0]
     mem = [("[Content_Types].xml", content_types(
@@ -822,7 +825,7 @@ def write_docx(units, reverse_rels=False, one_rel=False):
     for k, im in enumerate(imgs):
         m = im.get("media", k + 1)
         rid, new = _rid_for(rid_of, one_rel, m, k + 9)
-        if new:
+        if new and not im.get("dangling"):
             rl.append((rid, R + "/image", "media/image%d.%s" % (m, im["ext"])))
         paras.append('<w:p><w:r><w:drawing><wp:inline><a:graphic><a:graphicData><pic:pic><pic:nvPicPr><pic:cNvPr id="%d" name="Picture %d"/>'
                      '</pic:nvPicPr><pic:blipFill><a:blip r:embed="%s"/></pic:blipFill></pic:pic></a:graphicData></a:graphic>'
@@ -833,7 +836,8 @@ def write_docx(units, reverse_rels=False, one_rel=False):
                 '<?xml version="1.0" encoding="UTF-8"?><w:document xmlns:w="%s" xmlns:wp="http://schemas.openxmlformats.org/drawingml/2006/wordprocessingDrawing" '
                 'xmlns:a="%s" xmlns:pic="http://schemas.openxmlformats.org/drawingml/2006/picture" xmlns:r="%s"><w:body>%s</w:body></w:document>' % (
                     W, A, R, "".join(paras))))
-    mem.append(("word/_rels/document.xml.rels", rels_xml(rl[::-1] if reverse_rels else rl)))
+    if rl or not omit_empty_rels:
+        mem.append(("word/_rels/document.xml.rels", rels_xml(rl[::-1] if reverse_rels else rl)))
     return _zip(mem)
 
 def write_epub(units, reverse_rels=False, one_rel=False):
@@ -890,7 +894,8 @@ def write_odp(units, reverse_rels=False, one_rel=False):
 _S_NS = "http://schemas.openxmlformats.org/spreadsheetml/2006/main"
 _XDR = "http://schemas.openxmlformats.org/drawingml/2006/spreadsheetDrawing"
 
-def write_xlsx(units, reverse_rels=False, swap_files=False, anchors=("one",), ext_px=None, one_rel=False):
+def write_xlsx(units, reverse_rels=False, swap_files=False, anchors=("one",), ext_px=None, one_rel=False,
+               omit_empty_rels=False):
     """units: per sheet (tab order) list of images.  swap_files: the first tab lives in sheet2.xml and the
     second in sheet1.xml (what Excel leaves behind after the tabs are reordered)."""
     ns = len(units)
@@ -915,7 +920,7 @@ def write_xlsx(units, reverse_rels=False, swap_files=False, anchors=("one",), ex
             n += 1
             m = im.get("media", n)
             rid, new = _rid_for(rid_of, one_rel, m, k)
-            if new:
+            if new and not im.get("dangling"):      # dangling: the anchor names an id its part has no relationship for
                 rl.append((rid, R + "/image", "../media/image%d.%s" % (m, im["ext"])))
             pic = ('<xdr:pic><xdr:nvPicPr><xdr:cNvPr id="%d" name="Picture %d"/><xdr:cNvPicPr/></xdr:nvPicPr><xdr:blipFill><a:blip r:embed="%s"/></xdr:blipFill><xdr:spPr/></xdr:pic><xdr:clientData/>' % (k + 2, k + 1, rid))
             kind = anchors[k % len(anchors)]
@@ -929,7 +934,8 @@ def write_xlsx(units, reverse_rels=False, swap_files=False, anchors=("one",), ex
             if im["present"]:
                 mem.append(("xl/media/image%d.%s" % (m, im["ext"]), im["data"]))
         mem.append(("xl/drawings/drawing%d.xml" % f, '<?xml version="1.0" encoding="UTF-8"?><xdr:wsDr xmlns:xdr="%s" xmlns:a="%s" xmlns:r="%s">%s</xdr:wsDr>' % (_XDR, A, R, "".join(anchors_xml))))
-        mem.append(("xl/drawings/_rels/drawing%d.xml.rels" % f, rels_xml(rl[::-1] if reverse_rels else rl)))
+        if rl or not omit_empty_rels:
+            mem.append(("xl/drawings/_rels/drawing%d.xml.rels" % f, rels_xml(rl[::-1] if reverse_rels else rl)))
     return _zip(mem)
 
 
@@ -941,11 +947,19 @@ def _k3_model(ctx, n_units, max_per_unit):
         k = ctx.choice("images_on_unit%d" % u, max_per_unit + 1)
         row = []
         for j in range(k):
-            present = not ctx.flag("missing%d_%d" % (u, j))
+            dangling = False
+            if ctx.params.get("dangling"):
+                # "referenced but missing" at either level: the media part is absent from the package, or the
+                # anchor's relationship id has no relationship in its own part (the same id string does exist
+                # in the parts of the other units: every part numbers its relationships rId1, rId2, ...)
+                state = ctx.choice("anchor%d_%d_present_mediamissing_relationshipmissing" % (u, j), 3)
+                present, dangling = state == 0, state == 2
+            else:
+                present = not ctx.flag("missing%d_%d" % (u, j))
             ext, ctype, mk = KINDS[n % 4]
             n += 1
             size = (3 + n, 5 + 2 * n)
-            row.append(dict(ext=ext, ctype=ctype, data=mk(*size), present=present, size=size))
+            row.append(dict(ext=ext, ctype=ctype, data=mk(*size), present=present, size=size, dangling=dangling))
         units.append(row)
     return units
 
@@ -991,7 +1005,9 @@ def k3_packages(ctx):
     if ctx.params.get("faults") and flat:
         fail_at = ctx.choice("read_failure_at", len(flat) + 1)       # 0 = no failure
     opts = {}
-    if fmt == "xlsx" and not ctx.params.get("faults"):
+    if ctx.params.get("dangling"):
+        opts["omit_empty_rels"] = ctx.flag("relationship_part_without_entries_omitted")
+    elif fmt == "xlsx" and not ctx.params.get("faults"):
         # tabs reordered after creation (first tab stored in sheet2.xml), anchor kinds, displayed size
         if n_units == 2:
             opts["swap_files"] = ctx.flag("tab_order_differs_from_file_numbers")
@@ -1013,6 +1029,8 @@ def k3_packages(ctx):
     index_of = {im["data"]: k for k, im in enumerate(flat)}
     shape = {"units": [len(u) for u in units], "present": [[int(im["present"]) for im in u] for u in units],
              "reversed": reverse, "fail_at": fail_at}
+    if ctx.params.get("dangling"):
+        shape["no_relationship"] = [[int(im["dangling"]) for im in u] for u in units]
     shape.update({k: (",".join(v) if k == "anchors" else bool(v)) for k, v in opts.items()})
     numbers_all = [m["image_number"] for _, _, m in got]
     if fail_at:
@@ -1098,6 +1116,7 @@ def _k3_parts(tier):
     per = 2 if tier == "quick" else 3
     parts = [{"format": f, "per_unit": per} for f in ("pptx", "docx", "epub", "odp", "xlsx")]
     parts += [{"format": f, "per_unit": per, "faults": True} for f in ("pptx", "epub", "odp", "xlsx")]
+    parts += [{"format": f, "per_unit": per, "dangling": True} for f in ("pptx", "docx", "xlsx")]
     return parts
 
 
@@ -1269,6 +1288,149 @@ def _k4_parts(tier):
 
 
 # ---------------------------------------------------------------------------------------
+# K5: PDF image XObjects - every way a /Filter entry can announce an embedded JPEG file
+# ---------------------------------------------------------------------------------------
+import base64
+
+# ISO 32000-1 7.4: a stream's /Filter is a name or an ARRAY of names applied in order when decoding; the
+# transport filters (7.4.2-7.4.4) carry arbitrary data, the image filter (DCTDecode, 7.4.8) comes last
+_PDF_TRANSPORT = {"FlateDecode": zlib.compress,
+                  "ASCIIHexDecode": lambda d: d.hex().upper().encode() + b">",
+                  "ASCII85Decode": lambda d: base64.a85encode(d) + b"~>"}
+_PDF_T = sorted(_PDF_TRANSPORT)
+# (as array?, transport filters in front of /DCTDecode)
+PDF_FILTER_FORMS = ([(False, ()), (True, ())] + [(True, (a,)) for a in _PDF_T]
+                    + [(True, (a, b)) for a in _PDF_T for b in _PDF_T])
+
+
+def write_pdf(units, reverse_rels=False):
+    """pages with JPEG image XObjects painted in list order (Do operators); reverse_rels lists the /XObject
+    resource dictionary in reverse.  Classic cross-reference table, no compression of the file structure."""
+    objs, n_pages = {}, len(units)
+    page_ids = [3 + i for i in range(n_pages)]
+    nxt = [3 + n_pages]
+
+    def new(body):
+        k = nxt[0]
+        nxt[0] += 1
+        objs[k] = body
+        return k
+
+    def stream(d, data):
+        return b"<< " + d + b" /Length %d >>\nstream\n" % len(data) + data + b"\nendstream"
+
+    for pi, imgs in enumerate(units):
+        names, ops = [], []
+        for k, im in enumerate(imgs):
+            as_array, chain = im["filter_form"]
+            data = im["data"]
+            for f in reversed(chain):           # decoding undoes the first array entry first: it is applied last
+                data = _PDF_TRANSPORT[f](data)
+            if as_array:
+                fs = b"[" + b" ".join(b"/" + f.encode() for f in list(chain) + ["DCTDecode"]) + b"]"
+            else:
+                fs = b"/DCTDecode"
+            d = (b"/Type /XObject /Subtype /Image /Width %d /Height %d /ColorSpace /DeviceGray /BitsPerComponent 8 "
+                 b"/Filter %s" % (im["size"][0], im["size"][1], fs))
+            names.append((b"/Im%d" % (k + 1), new(stream(d, data))))
+            ops.append(b"q 100 0 0 100 %d 100 cm /Im%d Do Q" % (50 + 120 * k, k + 1))
+        cid = new(stream(b"", b"BT /F1 12 Tf 50 700 Td (page %d) Tj ET\n" % (pi + 1) + b"\n".join(ops)))
+        xo = b" ".join(nm + b" %d 0 R" % oid for nm, oid in (names[::-1] if reverse_rels else names))
+        objs[page_ids[pi]] = (b"<< /Type /Page /Parent 2 0 R /MediaBox [0 0 612 792] /Contents %d 0 R /Resources << "
+                              b"/Font << /F1 << /Type /Font /Subtype /Type1 /BaseFont /Helvetica >> >> "
+                              b"/XObject << %s >> >> >>" % (cid, xo))
+    objs[1] = b"<< /Type /Catalog /Pages 2 0 R >>"
+    objs[2] = b"<< /Type /Pages /Count %d /Kids [%s] >>" % (n_pages, b" ".join(b"%d 0 R" % q for q in page_ids))
+    out = io.BytesIO()
+    out.write(b"%PDF-1.4\n%\xe2\xe3\xcf\xd3\n")
+    offs = {}
+    for k in sorted(objs):
+        offs[k] = out.tell()
+        out.write(b"%d 0 obj\n" % k + objs[k] + b"\nendobj\n")
+    x, size = out.tell(), max(objs) + 1
+    out.write(b"xref\n0 %d\n0000000000 65535 f \n" % size)
+    for k in range(1, size):
+        out.write(b"%010d 00000 n \n" % offs[k])
+    out.write(b"trailer\n<< /Size %d /Root 1 0 R >>\nstartxref\n%d\n%%%%EOF\n" % (size, x))
+    out.seek(0)
+    return out
+
+
+KNOWN_PDF_RESTART = "C14-pdf-numbering-restarts-per-page"
+
+
+def k5_pdf(ctx):
+    from sharepoint2text.parsing.extractors.pdf.pdf_extractor import read_pdf
+    n_units = ctx.params["units"]
+    forms = PDF_FILTER_FORMS[:ctx.params["forms"]]
+    units, n, total = [], 0, 0
+    for u in range(n_units):
+        if u == 0 and ctx.params.get("first_unit") is not None:
+            k = ctx.params["first_unit"]
+        else:
+            k = ctx.choice("images_on_page%d" % u, min(ctx.params["per_unit"], ctx.params["max_total"] - total) + 1)
+        total += k
+        row = []
+        for j in range(k):
+            form = forms[ctx.choice("filter_form%d_%d" % (u, j), len(forms))]
+            n += 1
+            size = (3 + n, 5 + 2 * n)
+            row.append(dict(ext="jpeg", ctype="image/jpeg", data=make_jpeg(*size), size=size, filter_form=form))
+        units.append(row)
+    reverse = ctx.params["reversed"] if ctx.params.get("reversed") is not None else \
+        ctx.flag("xobject_dictionary_order_reversed")
+    shape = {"pages": [[("[%s]" if a else "%s") % " ".join(list(c) + ["DCTDecode"]) for a, c in
+                        (im["filter_form"] for im in u)] for u in units], "reversed": reverse}
+    try:
+        content = next(iter(read_pdf(write_pdf(units, reverse), "x.pdf")))
+        imgs = list(content.iterate_images())
+        got = [(i.get_bytes().read(), i.get_content_type(), dict(i.get_metadata())) for i in imgs]
+    except Exception as e:
+        ctx.fail("reader-raised", exc=type(e).__name__, msg=str(e)[:120], **shape)
+    flat = [im for u in units for im in u]
+    index_of = {im["data"]: k for k, im in enumerate(flat)}
+    # the embedded file is what the filter chain in front of the image filter transports: bit-exact, nothing extra
+    ctx.require(all(b in index_of for b, _, _ in got), "returned-bytes-not-in-document",
+                lengths=[len(b) for b, _, _ in got], **shape)
+    seq = [index_of[b] for b, _, _ in got]
+    ctx.require(sorted(seq) == list(range(len(flat))), "image-lost-or-duplicated", got=seq, **shape)
+    ctx.require(seq == list(range(len(flat))), "order-differs-from-document-order", got=seq, **shape)
+    for k, (b, ctype, meta) in enumerate(got):
+        want = "image/jpeg"                     # the delivered bytes are a JPEG file (SOI ... EOI)
+        if ctx.perturb == "content_type_png":
+            want = "image/png"
+        ctx.require(b[:2] == b"\xff\xd8" and ctype == want and meta["content_type"] == want, "content-type-differs",
+                    expected=want, got=ctype, image=k + 1, **shape)
+        size = flat[k]["size"] if ctx.perturb != "size_swapped" else flat[k]["size"][::-1]
+        ctx.require((meta["width"], meta["height"]) == size, "pixel-size-not-reported", expected=list(flat[k]["size"]),
+                    got=[meta["width"], meta["height"]], **shape)
+    unit_of = [ui + 1 for ui, u in enumerate(units) for _ in u]
+    for k, (b, _, meta) in enumerate(got):
+        ctx.require(meta["unit_number"] == unit_of[k], "image-on-wrong-unit", unit_number=meta["unit_number"],
+                    expected=unit_of[k], **shape)
+    ulist = list(content.iterate_units())
+    ctx.require(len(ulist) == n_units, "unit-count-differs", got=len(ulist), **shape)
+    per_unit = [[i.get_bytes().read() for i in u.get_images()] for u in ulist]
+    ctx.require(per_unit == [[im["data"] for im in u] for u in units], "views-differ", what="images", **shape)
+    numbers = [m["image_number"] for _, _, m in got]
+    restart = [j + 1 for u in units for j in range(len(u))]
+    want = list(range(1, len(got) + 1))
+    is_restart = numbers == restart and restart != want
+    if is_restart and not ctx.perturb and KNOWN_PDF_RESTART in (ctx.params.get("known_active") or ()):
+        return              # recorded finding, still reproducing on this tree: its class is not reported again
+    ctx.require(numbers == want, "numbers-not-1..n", numbers=numbers, restart=is_restart, **shape)
+
+
+def _k5_parts(tier):
+    if tier == "quick":
+        base = {"per_unit": 2, "max_total": 4, "forms": 5}
+        return [dict(base, units=1)] + [dict(base, units=2, first_unit=k) for k in range(3)]
+    base = {"per_unit": 3, "max_total": 3, "forms": len(PDF_FILTER_FORMS)}
+    parts = [dict(base, units=1)] + [dict(base, units=2, first_unit=k) for k in range(4)]
+    return [dict(q, reversed=r) for q in parts for r in (False, True)]
+
+
+# ---------------------------------------------------------------------------------------
 # K3v: unit views vs document iterators on content instances
 # ---------------------------------------------------------------------------------------
 
@@ -1389,13 +1551,16 @@ KERNELS = [
            perturb=[("numbers_from_zero", {"format": "odp", "per_unit": 2}),
                     ("size_swapped", {"format": "docx", "per_unit": 2})],
            choices=["number of units (1..2)", "images per unit (0..2, thorough 0..3)", "media member present/missing",
+                    "pptx/docx/xlsx 'dangling' parts: per anchor present / media part missing / relationship missing "
+                    "(the anchor's r:embed id has no relationship in its own part while the other parts use the same "
+                    "id strings), relationship part without entries written or omitted",
                     "relationship / manifest order reversed", "index of the failing media read",
                     "xlsx: tab order differs from sheetN.xml numbering, anchor kinds (oneCell/twoCell/mixed), picture "
                     "resized on the sheet"],
            stubs=["ZipContext.read_bytes -> raises OSError at the chosen image read (fault parts only)"],
            assumptions=["images are PNG/JPEG/GIF/BMP written by the harness with distinct pixel sizes; every anchor "
                         "references its own media member (media shared between anchors: K4)"],
-           outside=["odt, ods, odg, pdf, rtf packages (no writer in the harness); external links",
+           outside=["odt, ods, odg, rtf packages (no writer in the harness; pdf: K5); external links",
                     "bit-exactness of zipfile itself"],
            timeout={"quick": 100, "thorough": 1100}),
     Kernel("K4", "media parts shared between anchors (one relationship reused, several relationships with one Target, "
@@ -1422,6 +1587,23 @@ KERNELS = [
                         "'open'); re-reading happens only after the schedule, through the unit views"],
            outside=["two streams of the SAME image object open at once; threads; pixel size of odp images (K3)",
                     "odt, ods, odg, pdf, rtf packages"],
+           timeout={"quick": 300, "thorough": 1100}),
+    Kernel("K5", "generated PDFs through read_pdf: JPEG image XObjects whose /Filter is a name, a one-element array or "
+                 "a filter chain (transport filters FlateDecode / ASCIIHexDecode / ASCII85Decode in front of DCTDecode): "
+                 "bytes == the embedded JPEG file, content type image/jpeg, declared size, document (paint) order, "
+                 "page attribution, page views == document iterator, numbers 1..n",
+           k5_pdf, targets=lambda: [__import__("sharepoint2text.parsing.extractors.pdf.pdf_extractor", fromlist=["x"]).read_pdf],
+           parts=_k5_parts, strength="structure", core=False,
+           perturb=[("content_type_png", {"units": 1, "per_unit": 2, "max_total": 4, "forms": 5}),
+                    ("size_swapped", {"units": 1, "per_unit": 2, "max_total": 4, "forms": 5})],
+           choices=["pages 1..2, images per page 0..2 (thorough 0..3, <= 3 in all)",
+                    "per image the form of /Filter: /DCTDecode, [/DCTDecode], [/T /DCTDecode] (quick), "
+                    "[/T1 /T2 /DCTDecode] (thorough), T over FlateDecode, ASCIIHexDecode, ASCII85Decode",
+                    "/XObject resource dictionary listed in paint order or reversed"],
+           assumptions=["document order of a page = order of the Do operators of its content stream",
+                        "only DCTDecode images have an embedded FILE (raw sample images are re-encoded: outside)"],
+           outside=["JPXDecode / CCITT / JBIG2 / raw-sample images, inline images, form XObjects, LZW / RunLength "
+                    "transport, /DecodeParms, one XObject painted on several pages, encrypted files"],
            timeout={"quick": 100, "thorough": 1100}),
     Kernel("K3v", "unit views vs document iterators on content instances (pdf, pptx, xlsx, odp, ods): inclusion and, "
                   "for these page/slide/sheet formats, equality as sequences",
